@@ -21,7 +21,11 @@ def check_indices(teal):
         s = line.strip()
         if not s or s.startswith("#") or s.startswith("//"):
             continue
-        toks = avm.tokenize_line(s)
+        try:
+            toks = avm.tokenize_line(s)
+        except ValueError as ex:
+            probs.append(f"emitted line does not lex as TEAL: {s[:80]!r}: {ex}")
+            continue
         if not toks:
             continue
         t = toks[0]
@@ -45,9 +49,13 @@ def check_indices(teal):
         if "//" not in s:
             continue
         head, _, orig = s.partition("//")
-        orig_toks = avm.tokenize_line(orig.strip() if not orig.strip().startswith('"') else orig.strip())
-        # comment text = original argument tokens of int/byte/addr/method
-        orig_args = avm.tokenize_line("x " + orig)[0][1:] if orig.strip() else []
+        try:
+            orig_toks = avm.tokenize_line(orig.strip() if not orig.strip().startswith('"') else orig.strip())
+            # comment text = original argument tokens of int/byte/addr/method
+            orig_args = avm.tokenize_line("x " + orig)[0][1:] if orig.strip() else []
+        except ValueError as ex:
+            probs.append(f"original literal kept in the comment does not lex: {orig[:60]!r}: {ex}")
+            continue
         def orig_int():
             a = orig_args[0]
             return a if a.startswith("TMPL_") else avm.parse_int_literal(a)
